@@ -10,7 +10,6 @@ import (
 	"regexp"
 	"sort"
 	"strings"
-	"sync"
 	"time"
 
 	"golang.org/x/tools/go/ssa"
@@ -136,31 +135,13 @@ func explore(c *runCfg) (*loaded, map[string][]byte, []*sym.HarnessResult, error
 	}
 	sh := sym.NewShared(l.prog)
 	opt := sym.Options{Solver: c.solver, TimeoutMs: c.timeoutMs, MaxPaths: c.maxPaths, WallLimit: c.wall, Debug: c.debug}
-	results := make([]*sym.HarnessResult, len(hs))
-	var wg sync.WaitGroup
-	ch := make(chan int)
-	nw := c.workers
-	if nw > len(hs) {
-		nw = len(hs)
+	var progress func(*sym.HarnessResult)
+	if c.debug {
+		progress = func(r *sym.HarnessResult) {
+			fmt.Fprintf(os.Stderr, "  %s: paths=%d proved=%d violated=%d inconcl=%d cpu=%.1fs\n", r.Name, r.Stats.Paths, r.Stats.Proved, r.Stats.Violated, r.Stats.Inconclusive, r.WallS)
+		}
 	}
-	for w := 0; w < nw; w++ {
-		wg.Add(1)
-		go func() {
-			defer wg.Done()
-			for i := range ch {
-				results[i] = sym.RunHarness(sh, hs[i], opt)
-				if c.debug {
-					r := results[i]
-					fmt.Fprintf(os.Stderr, "  %s: paths=%d proved=%d violated=%d inconcl=%d %.1fs\n", r.Name, r.Stats.Paths, r.Stats.Proved, r.Stats.Violated, r.Stats.Inconclusive, r.WallS)
-				}
-			}
-		}()
-	}
-	for i := range hs {
-		ch <- i
-	}
-	close(ch)
-	wg.Wait()
+	results := sym.RunAll(sh, hs, opt, c.workers, progress)
 	return l, ov, results, nil
 }
 
@@ -171,8 +152,8 @@ func runOnly(c *runCfg) int {
 		return 2
 	}
 	for _, r := range results {
-		fmt.Printf("%s: paths=%d completed=%d proved=%d violated=%d inconclusive=%d merges=%d/%d queries=%d wall=%.2fs solver=%.2fs\n",
-			r.Name, r.Stats.Paths, r.Completed, r.Stats.Proved, r.Stats.Violated, r.Stats.Inconclusive, r.Stats.Merges, r.Stats.MergeFails, r.Queries, r.WallS, r.SolverS)
+		fmt.Printf("%s: paths=%d completed=%d proved=%d violated=%d inconclusive=%d merges=%d/%d queries=%d (feas %d assert %d) wall=%.2fs solver=%.2fs\n",
+			r.Name, r.Stats.Paths, r.Completed, r.Stats.Proved, r.Stats.Violated, r.Stats.Inconclusive, r.Stats.Merges, r.Stats.MergeFails, r.Queries, r.Stats.FeasQueries, r.Stats.AssertQueries, r.WallS, r.SolverS)
 		for _, rep := range r.Reports {
 			fmt.Printf("   %s %s [%s] %s %s\n", rep.Status, rep.Kind, rep.Label, rep.Site, rep.Detail)
 			if rep.Model != nil && c.debug {
